@@ -440,39 +440,57 @@ def run_all(hs, jobs, use_cache, logdir):
                 for name, r in res.items():
                     r["cache_hit"] = False
                     results[name] = r
-    # phase 2: concrete values for harnesses with a counterexample (failed check, or a RETURNED
-    # cover of a must-panic harness that is satisfiable)
-    need = []
-    for h in todo:
-        r = results.get(h.name, {})
-        if h.expect == "witness_fail" or r.get("status") not in ("SUCCESSFUL", "FAILED"):
-            continue
-        if (h.expect == "pass" and r.get("failed")) or \
-                (h.expect == "must_panic" and r.get("covers", {}).get("RETURNED") == "SATISFIED"):
-            need.append(h)
-
-    def worker2(h):
-        with slot_lock:
-            slot = slots.pop(0)
-        try:
-            res = run_chunk(h.cfg, slot, [h], logdir, playback=True)
-            return h, res.get(h.name, {})
-        finally:
-            with slot_lock:
-                slots.append(slot)
-                slots.sort()
-
-    if need:
-        with ThreadPoolExecutor(max_workers=jobs) as ex:
-            for h, r2 in ex.map(worker2, need):
-                results[h.name]["playback"] = r2.get("playback", [])
-                results[h.name]["playback_log"] = r2.get("log")
+    # phase 2 (concrete values for counterexamples) is done on demand by playback_batch()
     for h in todo:
         r = results.get(h.name)
         if r and r.get("status") in ("SUCCESSFUL", "FAILED"):
             with open(os.path.join(CACHE, h.cache_key + ".json"), "w") as f:
                 json.dump(r, f)
     return results
+
+
+def needs_playback(h, r):
+    if h.expect == "witness_fail" or r.get("status") not in ("SUCCESSFUL", "FAILED"):
+        return False
+    if "playback" in r and r.get("playback_done"):
+        return False
+    return (h.expect == "pass" and bool(r.get("failed"))) or \
+        (h.expect == "must_panic" and r.get("covers", {}).get("RETURNED") == "SATISFIED")
+
+
+def playback_batch(hs, results, jobs, logdir, limit):
+    """Phase 2: re-run up to `limit` failing harnesses (cheapest first) with concrete playback to get
+    the counterexample values. Returns the harnesses processed."""
+    costs = load_costs()
+    need = [h for h in hs if needs_playback(h, results.get(h.name, {}))]
+    need.sort(key=lambda h: float(costs.get(h.name, h.cost)))
+    batch = need[:limit]
+    if not batch:
+        return []
+    slots = list(range(jobs))
+    slot_lock = threading.Lock()
+
+    def worker2(h):
+        with slot_lock:
+            slot = slots.pop(0)
+        try:
+            res = run_chunk(h.cfg, slot, [h], logdir, playback=True, focus=results[h.name].get("focus"))
+            return h, res.get(h.name, {})
+        finally:
+            with slot_lock:
+                slots.append(slot)
+                slots.sort()
+
+    with ThreadPoolExecutor(max_workers=jobs) as ex:
+        for h, r2 in ex.map(worker2, batch):
+            results[h.name]["playback"] = r2.get("playback", [])
+            results[h.name]["playback_done"] = True
+            results[h.name]["playback_log"] = r2.get("log")
+            ck = getattr(h, "cache_key", None)
+            if ck and not results[h.name].get("focus"):
+                with open(os.path.join(CACHE, ck + ".json"), "w") as f:
+                    json.dump(results[h.name], f)
+    return batch
 
 
 def run_focus(hs, prop, jobs, logdir):
@@ -495,6 +513,7 @@ def run_focus(hs, prop, jobs, logdir):
     with ThreadPoolExecutor(max_workers=jobs) as ex:
         for h, r in ex.map(worker, hs):
             r["cache_hit"] = False
+            r["playback_done"] = True
             results[h.name] = r
     return results
 
@@ -541,14 +560,17 @@ def build_replayer(cfg, profile):
         return binp
 
 
-def native_replay(h, values, profile, focus=None):
+def native_replay(h, values, profile, focus=None, attribute=None):
     binp = build_replayer(h.cfg, profile)
     env = dict(os.environ)
     env.pop("VERIF_FOCUS", None)
     if focus:
         env["VERIF_FOCUS"] = focus
-    p = subprocess.run([binp, h.name, json.dumps(values)], stdout=subprocess.PIPE,
-                       stderr=subprocess.PIPE, text=True, timeout=120, env=env)
+    cmd = [binp, h.name, json.dumps(values)]
+    if attribute:
+        cmd += ["--attribute", attribute, os.environ.get("VERIF_ATTRIB_DEPTH", "2")]
+    p = subprocess.run(cmd, stdout=subprocess.PIPE,
+                       stderr=subprocess.PIPE, text=True, timeout=900, env=env)
     for line in p.stdout.splitlines():
         if line.startswith("REPLAY "):
             try:
@@ -628,7 +650,8 @@ def evaluate(prop, h, r):
                     vals = p["values"]
                     break
         item = {"mode": "panic", "description": f["description"], "location": f.get("location", ""),
-                "values": vals, "tags": tags, "focus": r.get("focus")}
+                "values": vals, "tags": tags, "focus": r.get("focus"),
+                "conformance": "[conformance]" in f["description"]}
         if f["description"].startswith("harness:"):
             issues.append({"kind": "inconclusive", "why": "%s: harness self-check failed: %s" % (
                 h.name, f["description"])})
@@ -660,6 +683,22 @@ def confirm(prop, h, issue):
         rec["native"]["error"] = "Kani reported no concrete values for this failure"
         return False, rec
     reproduced = False
+    if issue.get("conformance"):
+        # A conformance assertion (real scanner vs. observer) failed. Which property's statement is
+        # broken is decided natively: bounded search over concrete continuations from the divergent
+        # state for one on which this property's clauses fail on the real outputs (attrib.rs).
+        rec["mode"] = "conformance"
+        for profile in ("dev", "release"):
+            out = native_replay(h, issue["values"], profile, focus=issue.get("focus"), attribute=prop)
+            rec["native"][profile] = out
+            att = out.get("attribution", {})
+            if out.get("outcome") == "panic" and att.get("found"):
+                reproduced = True
+                rec["attribution"] = att
+                break
+        if not reproduced:
+            rec["conformance_only"] = True
+        return reproduced, rec
     for profile in ("dev", "release"):
         out = native_replay(h, issue["values"], profile, focus=issue.get("focus"))
         rec["native"][profile] = out
@@ -763,6 +802,55 @@ def write_evidence(prop, tier, seed, hs, results, violations, known_lines, wall,
         json.dump(ev, f, indent=1)
 
 
+def process_harnesses(prop, hs, results, known, known_lines, violations, inconclusive, conf_only, others):
+    for h in hs:
+        r = results.get(h.name, {"status": "MISSING"})
+        for issue in evaluate(prop, h, r):
+            if issue["kind"] == "inconclusive":
+                inconclusive.append(issue["why"])
+            elif issue["kind"] == "other_property":
+                others.append("%s: failing assertion belongs to %s: %s" % (
+                    h.name, ",".join(issue["tags"]), issue["description"]))
+            else:
+                try:
+                    ok, rec = confirm(prop, h, issue)
+                except Inconclusive as e:
+                    inconclusive.append(str(e))
+                    continue
+                if not ok and rec.get("conformance_only"):
+                    nat = rec["native"].get("dev", {})
+                    if nat.get("outcome") != "panic":
+                        inconclusive.append("conformance counterexample of %s did not reproduce natively: %s" % (
+                            h.name, json.dumps(nat)[:400]))
+                    else:
+                        msg = ("%s: the real scanner deviates from the observer (%s; reproduced natively) but no "
+                               "violation of %s was found on any continuation of up to %s further events: the "
+                               "induction for %s is not closed on this tree" % (
+                                   h.name, issue["description"][:90], prop,
+                                   os.environ.get("VERIF_ATTRIB_DEPTH", "2"), prop))
+                        if msg not in conf_only:
+                            conf_only.append(msg)
+                    continue
+                if not ok:
+                    inconclusive.append("counterexample of %s (%s) did not reproduce natively: %s" % (
+                        h.name, issue["description"], json.dumps(rec["native"])[:600]))
+                    continue
+                kf = match_known(known, prop, h, issue)
+                if kf is not None:
+                    line = "KNOWN-FINDING: property=%s %s" % (prop, kf["what"])
+                    if line not in known_lines:
+                        known_lines.append(line)
+                    continue
+                hid = hashlib.sha256(json.dumps([h.name, issue["description"], issue.get("values")]
+                                                ).encode()).hexdigest()[:10]
+                path = os.path.join(VERIF, "replays", "%s-%s-%s.json" % (prop, h.name, hid))
+                os.makedirs(os.path.dirname(path), exist_ok=True)
+                rec["repo_tree_sha256"] = repo_hash()
+                with open(path, "w") as f:
+                    json.dump(rec, f, indent=1)
+                violations.append((path, rec))
+
+
 def structural_eq_check(hs):
     """The scanner induction compares states with the scanners' PartialEq, which must be the derived
     (structural) one. A hand-written impl would make equal-looking states behave differently, so it
@@ -799,6 +887,7 @@ def check_property(prop, tier, seed, jobs, use_cache, only):
     results = run_all(hs, jobs, use_cache, logdir)
     violations = []
     inconclusive = []
+    conf_only = []
     others = []
     known = load_known()
     known_lines = []
@@ -822,46 +911,48 @@ def check_property(prop, tier, seed, jobs, use_cache, only):
                 fr["focus"] = prop
                 fr["unfocused_failures"] = [f["description"] for f in results[h.name].get("failed", [])]
                 results[h.name] = fr
-    for h in hs:
-        r = results.get(h.name, {"status": "MISSING"})
-        for issue in evaluate(prop, h, r):
-            if issue["kind"] == "inconclusive":
-                inconclusive.append(issue["why"])
-            elif issue["kind"] == "other_property":
-                others.append("%s: failing assertion belongs to %s: %s" % (
-                    h.name, ",".join(issue["tags"]), issue["description"]))
-            else:
-                try:
-                    ok, rec = confirm(prop, h, issue)
-                except Inconclusive as e:
-                    inconclusive.append(str(e))
-                    continue
-                if not ok:
-                    inconclusive.append("counterexample of %s (%s) did not reproduce natively: %s" % (
-                        h.name, issue["description"], json.dumps(rec["native"])[:600]))
-                    continue
-                kf = match_known(known, prop, h, issue)
-                if kf is not None:
-                    line = "KNOWN-FINDING: property=%s %s" % (prop, kf["what"])
-                    if line not in known_lines:
-                        known_lines.append(line)
-                    continue
-                hid = hashlib.sha256(json.dumps([h.name, issue["description"], issue.get("values")]
-                                                ).encode()).hexdigest()[:10]
-                path = os.path.join(VERIF, "replays", "%s-%s-%s.json" % (prop, h.name, hid))
-                os.makedirs(os.path.dirname(path), exist_ok=True)
-                rec["repo_tree_sha256"] = repo_hash()
-                with open(path, "w") as f:
-                    json.dump(rec, f, indent=1)
-                violations.append((path, rec))
+    max_replays = int(os.environ.get("VERIF_MAX_REPLAYS", "6"))
+    processed = set()
+    unreplayed = []
+    while True:
+        # harnesses without a counterexample, or whose counterexample values are available
+        ready = []
+        for h in hs:
+            if h.name in processed:
+                continue
+            r = results.get(h.name, {"status": "MISSING"})
+            if needs_playback(h, r):
+                continue
+            ready.append(h)
+        for h in ready:
+            processed.add(h.name)
+        process_harnesses(prop, ready, results, known, known_lines, violations, inconclusive, conf_only, others)
+        remaining = [h for h in hs if h.name not in processed]
+        if not remaining:
+            break
+        if violations:
+            # one replayed violation decides the check; the other failing harnesses are listed only
+            unreplayed = [h.name for h in remaining]
+            break
+        playback_batch(remaining, results, jobs, logdir, max_replays)
+    if unreplayed:
+        log("NOTE %d further harness(es) also fail and were not replayed: %s" % (
+            len(unreplayed), " ".join(unreplayed[:12])))
     for line in known_lines:
         log(line)
     for o in others:
         log("NOTE " + o)
+    # deviations from the observer that could not be attributed to this property make the run
+    # inconclusive (the induction is not closed) unless a real violation was found anyway
+    if conf_only and not violations:
+        inconclusive.extend(conf_only[:5])
     for path, rec in violations:
         log("  violated: %s [%s] values=%s" % (rec["description"], rec["harness"], rec["values"]))
         nat = rec["native"].get("dev", {})
         log("  native(dev): %s %s" % (nat.get("outcome"), (nat.get("message") or "")[:300]))
+        if rec.get("attribution"):
+            log("  attributed to %s by the continuation: %s => %s" % (
+                prop, " ; ".join(rec["attribution"].get("trace", [])), rec["attribution"].get("clause", "")))
         log("VIOLATION property=%s replay=%s" % (prop, path))
     for w in inconclusive:
         log("INCONCLUSIVE " + w)
@@ -902,9 +993,12 @@ def do_replay(prop, path):
         return 2
     reproduced = False
     for profile in ("dev", "release"):
-        out = native_replay(h, rec["values"], profile, focus=rec.get("focus"))
+        out = native_replay(h, rec["values"], profile, focus=rec.get("focus"),
+                            attribute=rec.get("property") if rec.get("mode") == "conformance" else None)
         log("replay %s [%s]: %s" % (h.name, profile, json.dumps(out)))
-        if rec.get("mode") == "returned":
+        if rec.get("mode") == "conformance":
+            reproduced |= out.get("outcome") == "panic" and out.get("attribution", {}).get("found", False)
+        elif rec.get("mode") == "returned":
             reproduced |= out.get("outcome") == "returned"
         else:
             reproduced |= out.get("outcome") == "panic"
